@@ -28,7 +28,13 @@ inductive Step
   | transportEnd (inside : Bool)
   /-- a record that is not the peer's (garbage, injected plaintext) arrived -/
   | forgery
+  /-- anything else that may legitimately make a later Read fail: an alert other than close_notify,
+      a record of a type the application does not read, a transport error that does not pass, the
+      peer's application acting on what this side wrote -/
   | other
+  /-- something that does not touch the incoming stream: the transport refusing this side's writes,
+      a read timeout that passes -/
+  | benign
   | call (k : Kind) (nonEmpty : Bool) (o : Outcome)
 deriving Repr, DecidableEq
 
@@ -48,17 +54,27 @@ structure St where
   owed : Bytes := []
   delivered : Bytes := []
   eofSeen : Bool := false
+  /-- the incoming stream carried something other than application data, close_notify and a clean
+      end (a forgery, another alert, a foreign record type, a transport error, a cut inside a record,
+      more than 16 empty records in a row — the documented limit of ignored records) -/
+  damaged : Bool := false
+  empties : Nat := 0
+  /-- a CloseWrite has failed -/
+  cwFailed : Bool := false
 
 /-- first violated clause, if any -/
 def check : St → List Step → Option (String × String)
   | _, [] => none
   | s, .peerData b :: rest =>
+    let s := if b.isEmpty then { s with empties := s.empties + 1, damaged := s.damaged || s.empties + 1 > 16 }
+             else { s with empties := 0 }
     check (if s.sawCloseNotify || s.endedClean || s.endedInside || s.forged then s else { s with owed := s.owed ++ b }) rest
-  | s, .forgery :: rest => check { s with forged := true } rest
+  | s, .forgery :: rest => check { s with forged := true, damaged := true } rest
   | s, .peerCloseNotify :: rest => check { s with sawCloseNotify := true } rest
   | s, .transportEnd inside :: rest =>
-    check (if inside then { s with endedInside := true } else { s with endedClean := true }) rest
-  | s, .other :: rest => check s rest
+    check (if inside then { s with endedInside := true, damaged := true } else { s with endedClean := true }) rest
+  | s, .other :: rest => check { s with damaged := true } rest
+  | s, .benign :: rest => check s rest
   | s, .call k ne o :: rest =>
     let failed := permanent o.err
     match k with
@@ -75,6 +91,12 @@ def check : St → List Step → Option (String × String)
         some ("eof-in-record", "end-of-stream reported without close_notify and without a clean transport end")
       else if o.err == "eof" && !s.eofSeen && s.delivered ++ o.data != s.owed then
         some ("eof-before-data", "end-of-stream reported before every byte the peer wrote was delivered")
+      else if ne && failed && o.err != "eof" && !s.damaged && !s.closed && !s.hsFailed && !s.readFailed then
+        -- reported faithfully: a stream that carried nothing but the peer's application data, its
+        -- close_notify and a clean end is handed over byte for byte and ends in end-of-stream; an
+        -- error here is made up, and (errors stay reported) it cuts the reader off from the bytes
+        -- the peer wrote before closing
+        some ("error-on-intact-stream", "a Read failed although only application data, close_notify or a clean transport end had arrived: the stream was not reported faithfully (undelivered bytes are lost, end-of-stream is never seen)")
       else
         check { s with readFailed := s.readFailed || (ne && failed), delivered := s.delivered ++ o.data,
                        eofSeen := s.eofSeen || o.err == "eof" } rest
@@ -83,7 +105,7 @@ def check : St → List Step → Option (String × String)
       -- wire: whatever the cause (also a write deadline), the write side is dead afterwards
       let failed := o.err != ""
       if s.closed && !failed then some ("write-after-close", "a Write after Close succeeded")
-      else if s.writeShut && !failed then some ("write-after-closewrite", "a Write after CloseWrite succeeded")
+      else if s.writeShut && !failed then some ("write-after-closewrite", "a Write after CloseWrite (successful or not) succeeded")
       else if s.writeFailed && !failed then some ("sticky-write", "a Write after a failed Write succeeded")
       else if s.hsFailed && !failed then some ("sticky-handshake", "a Write after a failed handshake succeeded")
       else check { s with writeFailed := s.writeFailed || failed } rest
@@ -91,7 +113,13 @@ def check : St → List Step → Option (String × String)
       if s.closed && o.err != "closed" then some ("close-twice", "a second Close did not report that the connection is closed")
       else check { s with closed := true } rest
     | .closeWrite =>
-      check (if o.err == "" then { s with writeShut := true } else s) rest
+      -- refused because the handshake has not completed: nothing was shut down
+      if o.err == "early_cw" then check s rest
+      -- the close_notify is attempted once; whatever became of it the write side is shut down
+      -- (a record was sealed with the next sequence number), and its result stays reported
+      else if s.cwFailed && o.err == "" then
+        some ("sticky-closewrite", "a CloseWrite after a failed CloseWrite reported success")
+      else check { s with writeShut := true, cwFailed := s.cwFailed || o.err != "" } rest
     | .handshake =>
       if s.hsFailed && !failed then some ("sticky-handshake", "Handshake succeeded after it had failed")
       else check { s with hsFailed := s.hsFailed || failed } rest
